@@ -1,14 +1,18 @@
 // based on https://stackoverflow.com/a/70840233
-pub fn linspace(x0: f64, xend: f64, n: usize) -> Vec<f64> {
+pub fn linspace(x0: f64, xend: f64, n: usize) -> Result<Vec<f64>, String> {
     if n == 0 {
-        return vec![];
+        return Ok(vec![]);
     }
     let dx = (xend - x0) / ((n - 1) as f64);
-    let mut x = vec![x0; n];
+    // n comes from the configuration: a count that cannot be allocated is an error, not an abort
+    let mut x: Vec<f64> = Vec::new();
+    x.try_reserve_exact(n)
+        .map_err(|e| format!("cannot allocate {} grid values: {}", n, e))?;
+    x.resize(n, x0);
     for i in 1..n {
         x[i] = x[i - 1] + dx;
     }
-    x
+    Ok(x)
 }
 
 pub fn find_nearest_index(arr: &[f64], target: f64) -> Result<usize, String> {
